@@ -1,4 +1,4 @@
-import QP.Proofs.C03Tracks
+import QP.Proofs.C03Strip
 /-!
 # Property theorems for C03 — declared parameters suffice, declared constraints are enforced
 
@@ -82,6 +82,18 @@ theorem sufficient (pt : PT) (kv : List (String × Rat)) (mm : Option (List (MNa
       · cases he
 
 /-! ## constraints -/
+
+/-- a template with a constraint on a mapped name below an iteration: a satisfying and a violating assignment -/
+def exampleTree : PT :=
+  .forLoop none
+    (.mapping none (.func none "A" (.lit 1) (.var "a") [] [.cmp .le (.var "a") (.lit 2)])
+      [("a", .add (.var "x") (.var "i"))] [] [("A", some "A")] [])
+    "i" (.lit 0) (.lit 2) (.lit 1) [] []
+
+example : WF exampleTree ∧ NoReservedT exampleTree := by
+  simp [exampleTree, WF, NoReservedT, parameterNames, consVars, measVars, noT, Expr.vars]
+
+
 
 /-- instantiation tracks the visible entries (`_create_program` level) -/
 theorem compile_tracks (pt : PT) (σ : Scope) (mm : List (MName × Option MName)) (cm : List (Chan × Option Chan))
@@ -222,28 +234,49 @@ theorem never_rejects_satisfying (pt : PT) (kv : List (String × Rat)) (mm : Opt
   cases hx
   exact hx0 rfl
 
-/-- **The equivalence.** Whenever instantiation does not fail for another reason (its outcome is a program or a
-constraint violation), it raises the constraint violation exactly if some visited node has a constraint that
-evaluates false in the scope it sees.
-(Full strength, not proved here: the hypothesis could be weakened to "the template without its constraints
-instantiates"; the forward direction without any hypothesis is `violation_sound`.) -/
+/-- **Constraints only gate.** If the template without its constraints (`stripCons pt`) instantiates to `prog`,
+then instantiating the template itself is exactly: validate the visible entries (the constraints of the visited
+nodes, each in the scope its node sees) in visiting order, then return the same `prog`. -/
+theorem constraints_only_gate (pt : PT) (kv : List (String × Rat)) (mm : Option (List (MName × Option MName)))
+    (cmUser : List (Chan × Option Chan)) (single : List String) (prog : Option Loop)
+    (h : createProgram (stripCons pt) kv mm cmUser single = .ok prog) :
+    createProgram pt kv mm cmUser single = visOutcome (visible pt (.dict kv)) >>= fun _ => .ok prog :=
+  createProgram_det pt kv mm cmUser single prog h
+
+/-- **The equivalence** (full strength). If nothing but constraints can fail — the template without its
+constraints instantiates — then instantiation raises `ParameterConstraintViolation` exactly if some visited node
+has a constraint that evaluates false in the scope it sees and no visible entry earlier in visiting order fails
+to evaluate or is false. -/
 theorem constraint_iff (pt : PT) (kv : List (String × Rat)) (mm : Option (List (MName × Option MName)))
-    (cmUser : List (Chan × Option Chan)) (single : List String)
-    (hno : ∀ e, createProgram pt kv mm cmUser single = .error e → e = .constraintViolation) :
+    (cmUser : List (Chan × Option Chan)) (single : List String) (prog : Option Loop)
+    (h : createProgram (stripCons pt) kv mm cmUser single = .ok prog) :
     createProgram pt kv mm cmUser single = .error .constraintViolation ↔
-      SomeFalse (visibleConstraints pt (.dict kv)) := by
-  constructor
-  · intro h
-    obtain ⟨pre, v, post, hl, _, hc, hv⟩ := violation_sound pt kv mm cmUser single h
-    exact ⟨(v.scope, v.expr), mem_visibleConstraints.mpr ⟨v, by rw [hl]; simp, hc, rfl⟩, hv⟩
-  · rintro ⟨se, hse, hfalse⟩
-    cases hr : createProgram pt kv mm cmUser single with
-    | error e => rw [hno e hr]
-    | ok prog =>
-      obtain ⟨x, hx, hx0⟩ := (constraints_enforced pt kv mm cmUser single prog hr).1 se hse
-      rw [hfalse] at hx
-      cases hx
-      exact absurd rfl hx0
+      ∃ pre v post, visible pt (.dict kv) = pre ++ v :: post ∧ visOutcome pre = .ok () ∧ v.isCons = true ∧
+        v.scope.eval v.expr = .ok 0 := by
+  rw [constraints_only_gate pt kv mm cmUser single prog h, ← visOutcome_cv_iff]
+  cases visOutcome (visible pt (.dict kv)) with
+  | error e => simp
+  | ok u => simp
+
+/-- … and it returns the program — the same one the constraint-free template yields — exactly if every
+constraint of every visited node evaluates true; there is no third outcome besides the errors of the judge. -/
+theorem program_iff (pt : PT) (kv : List (String × Rat)) (mm : Option (List (MName × Option MName)))
+    (cmUser : List (Chan × Option Chan)) (single : List String) (prog : Option Loop)
+    (h : createProgram (stripCons pt) kv mm cmUser single = .ok prog) :
+    createProgram pt kv mm cmUser single = .ok prog ↔
+      ∀ v ∈ visible pt (.dict kv), ∃ x, v.scope.eval v.expr = .ok x ∧ (v.isCons = true → x ≠ 0) := by
+  rw [constraints_only_gate pt kv mm cmUser single prog h, ← visOutcome_ok_iff]
+  cases visOutcome (visible pt (.dict kv)) with
+  | error e => simp
+  | ok u => simp
+
+/-- the hypothesis of `constraint_iff` is satisfiable, with both outcomes (`a = x + i ≤ 2` for `i = 0, 1`) -/
+example : (∃ p, createProgram (stripCons exampleTree) [("x", 1)] none [] [] = .ok p) ∧
+    (∃ p, createProgram exampleTree [("x", 1)] none [] [] = .ok p) ∧
+    (∃ p, createProgram (stripCons exampleTree) [("x", 2)] none [] [] = .ok p) ∧
+    createProgram exampleTree [("x", 2)] none [] [] = .error .constraintViolation :=
+  ⟨⟨_, by with_unfolding_all rfl⟩, ⟨_, by with_unfolding_all rfl⟩, ⟨_, by with_unfolding_all rfl⟩,
+    by with_unfolding_all rfl⟩
 
 /-- **A missing parameter never yields a program.** If an expression that a visited node evaluates
 unconditionally (a constraint, a repetition count, a loop bound, a constant duration, a table entry, an eagerly
@@ -303,16 +336,6 @@ theorem judge_agrees (l : List Vis) :
         · exact ih.2 h
 
 /-! ## non-vacuity and the known defect classes -/
-
-/-- a template with a constraint on a mapped name below an iteration: a satisfying and a violating assignment -/
-def exampleTree : PT :=
-  .forLoop none
-    (.mapping none (.func none "A" (.lit 1) (.var "a") [] [.cmp .le (.var "a") (.lit 2)])
-      [("a", .add (.var "x") (.var "i"))] [] [("A", some "A")] [])
-    "i" (.lit 0) (.lit 2) (.lit 1) [] []
-
-example : WF exampleTree ∧ NoReservedT exampleTree := by
-  simp [exampleTree, WF, NoReservedT, parameterNames, consVars, measVars, noT, Expr.vars]
 
 /-- PF-13 (repaired in the model): the pinned `parameter_names` of an `ArithmeticAtomicPulseTemplate` omits the
 parameters of its own measurement declarations, so the declared names do not suffice -/
